@@ -87,7 +87,10 @@ def run_case(case):
     subsets += [allsub[i] for i in order[: case["n_target_sets"]]]
     try:
         model = dsl.build_lcm_model(desc)
-        fsim, _ = pipeline.get_lcm_function(model, "simulate")
+        # jit=False is a documented option for every target (the panel must not depend on it)
+        fsim, _ = pipeline.get_lcm_function(model, "simulate", jit=(case["index"] % 3 != 2))
+        if case["index"] % 3 == 2:
+            cnt["simulate_functions_built_with_jit_false"] = 1
     except Exception as e:  # noqa: BLE001
         res["violations"].append({"key": pipeline.exc_key(e, "build"), "what": pipeline.exc_text(e)})
         res["status"] = "violated"
